@@ -8,7 +8,7 @@ on intervals.
 import sympy
 from fractions import Fraction
 
-from kernel.type import RealType
+from kernel.type import RealType, NatType
 from kernel import term
 from kernel.term import Term
 from kernel.thm import Thm
@@ -49,6 +49,9 @@ def convert(t):
     elif t.is_plus():
         return convert(t.arg1) + convert(t.arg)
     elif t.is_minus():
+        if t.get_type() == NatType:
+            # Subtraction on natural numbers is truncated
+            return sympy.Max(convert(t.arg1) - convert(t.arg), 0)
         return convert(t.arg1) - convert(t.arg)
     elif t.is_uminus():
         return -convert(t.arg)
@@ -173,6 +176,11 @@ def solve_with_interval(goal, cond):
     if not (hol_set.is_mem(cond) and cond.arg1.is_var() and 
             (cond.arg.is_comb("real_closed_interval", 2) or
              cond.arg.is_comb("real_open_interval", 2))):
+        return False
+
+    # The interval constrains only its own variable: a goal mentioning other
+    # variables would be decided as if those were fixed symbols.
+    if any(v != cond.arg1 for v in goal.get_vars()):
         return False
 
     var = convert(cond.arg1)
